@@ -13,6 +13,7 @@ import MTProofs.Select
 import MTProps.C05
 import MTProps.C08
 import MTProps.C17
+import MTProps.C04
 
 namespace MTProps.C03
 open MT MTProofs Finset MTProps.C02
@@ -110,6 +111,26 @@ theorem final_state_wf (hM : 1 ≤ maxIt) (hC : 1 ≤ nConv) (ik : InitKind) (us
       (runLoop assort K nv maxIt nConv evalL maxIt (realizationStart assort ik K N nv userW d).1 ctlInit).2.1.iteration]
       (realizationStart assort ik K N nv userW d).1 := hfin
   refine ⟨by rw [hfin']; exact hit.1, by rw [hfin', hit.2, hR], hr, h1, h2⟩
+
+/-- **what is returned is well-formed**: with r ≥ 1 realizations (each likelihood above `lowest()`), the
+returned factors are the final factors of one of the realizations (the first best one, C04), which is a
+well-formed state: N rows, K columns, values ≥ 0, zero rows for vertices without out- or in-edges; in
+undirected mode the in-membership container is the caller's -/
+theorem returned_wf (hM : 1 ≤ maxIt) (hC : 1 ≤ nConv) (ik : InitKind) (userW : Tens ℝ)
+    (hu : UserWOK assort K nv userW) (d : Nat → ℝ) (hd : StreamOK d) (hwf : ViewWF nv N)
+    (evalR : Nat → Nat → State ℝ → ℝ) (prior : State ℝ) (r : Nat) (hr : 1 ≤ r)
+    (H : ∀ i, i < r → MTExtra.lowest < (outcomeOf assort ik K N nv maxIt nConv evalR userW d i).L2) :
+    ∃ i, i < r ∧
+      (runAll assort ik K N nv r maxIt nConv evalR userW d prior).best =
+        adoptState nv prior (outcomeOf assort ik K N nv maxIt nConv evalR userW d i) ∧
+      WFState assort K nv (outcomeOf assort ik K N nv maxIt nConv evalR userW d i).final ∧
+      (outcomeOf assort ik K N nv maxIt nConv evalR userW d i).final.u.R = N := by
+  obtain ⟨i, hi, _, _, hb, _⟩ := MTProps.C04.select_is_first_argmax assort ik K N nv maxIt nConv evalR userW d prior r hr H
+  refine ⟨i, hi, hb, ?_⟩
+  have := final_state_wf assort K N nv maxIt nConv (evalR i) hM hC ik userW hu
+    (fun t => d (posSeq assort ik K N nv maxIt nConv evalR userW d i + t)) (fun t => hd _) hwf
+  simp only at this
+  exact ⟨this.1, this.2.1⟩
 
 /-- entries read from a well-formed state are ≥ 0 and the stated rows are zero -/
 theorem wf_reads {s : State ℝ} (h : WFState assort K nv s) :
